@@ -1,5 +1,5 @@
 """Property -> rules, and the texts that go into MANIFEST.json / evidence."""
-from .rules import version, layout, opcodes as o, engine as e, glue, registry
+from .rules import version, layout, opcodes as o, engine as e, glue, registry, safety
 
 TECH = "repository-specific static analysis"
 BASE_ASSUME = [
@@ -144,6 +144,36 @@ PROPS = {
         technique="static analysis: shared-iterator agreement, all-paths-raise evaluation by error count, dominating filter before the only constructor call",
         design_ref="DESIGN.md section 4, C16",
     ),
+    "C06": S(
+        safety.C06 + [safety.snap] + layout.RULES,
+        explanation="Structural clauses of 'extraction is a pure observation': (ESC-1) in every function that can run during an extraction, every store into persistent state (globals, module-level containers and objects, "
+                    "mutable defaults, thread-local state, closure cells of registered hooks, memoising decorators) is enumerated and its stored value must not be derived from a target (value-provenance propagation with id/len/repr/type/code-object sanitisers); "
+                    "(ESC-2) no send/throw/close/asend/athrow/aclose/__next__/next() on anything the package did not create itself, and unwrap results are iterated only as FrameIterator/Sequence; "
+                    "(ESC-3) every coroutine / async generator the package instantiates for type discovery is closed on all paths; (NULL-1) every PyObject* materialisation has a NULL guard; "
+                    "plus the snapshot protocol (SNAP) and ctypes layout agreement (LAY) for 'never crashes'.",
+        decides=["ESC-1", "ESC-2", "ESC-3", "NULL-1", "SNAP-1..5", "LAY-311", "LAY-310"],
+        not_decided=["reference-count balance inside ctypes itself", "behavioural equivalence of an observed and an unobserved run", "repeatability (two extractions compare equal)"],
+        assumptions=BASE_ASSUME + FACT_ASSUME + ["code objects, type objects, ints, bools and strings are not among the objects the property says must not be retained"],
+        level_text="Static escape/ownership check: who may store what where, who may resume what, and close-what-you-created on all paths. Necessary conditions of purity and memory safety; the behavioural equivalence itself is not claimed.",
+        level_note="Flow-insensitive provenance inside each function; persistent sinks are enumerated syntactically (assignments through globals/module-level bases/mutable defaults/closure cells, mutator method calls, memoising decorators).",
+        technique="static analysis: value-provenance (taint) to persistent sinks, resume-capable call receivers must be fresh, all-paths close obligations on the CFG",
+        design_ref="DESIGN.md section 4, C06",
+    ),
+    "C07": S(
+        safety.C07 + layout.RULES,
+        explanation="Protocol of the racing-thread snapshot in _lowlevel_cpython_311.inspect_frame: every read through the interpreter-frame pointer (f_frame.contents, iframe fields, addressof, py_object array construction, slot reads) lies inside the retry loop's try; "
+                    "the validity token f_lasti is sampled before the first raw read of each attempt; on the CFG, an `assert frame.f_lasti == lasti_before` re-check lies on every path from the raw header reads to the first slot read, between consecutive slot reads, "
+                    "and between the last raw read and the acceptance of the snapshot; the AssertionError handler cannot fall through to acceptance; the loop is bounded by a literal and exhaustion raises. "
+                    "unwrap_thread returns no frames unless the frame exists and the thread was alive before and after sys._current_frames() (truth table over three atoms). ctypes layouts agree with the headers.",
+        decides=["SNAP-1", "SNAP-2", "SNAP-3", "SNAP-4", "SNAP-5", "THR-1", "NULL-1", "LAY-311", "LAY-310"],
+        not_decided=["that the re-check protocol is sufficient under every interleaving (the GIL-switch argument in the source comments)", "that reported frames belong to the thread", "exactness for a blocked thread",
+                     "_lowlevel_cpython_310 has no snapshot re-validation at all; SNAP is scoped to the 3.11+ module"],
+        assumptions=BASE_ASSUME + FACT_ASSUME,
+        level_text="Static protocol check on the function's CFG (recheck-around-raw-read discipline, retry/reject structure) plus a truth-table check of the liveness guard. Decides that the protocol is followed at every raw read, not that it is sufficient under all schedules.",
+        level_note="Schedules are not explored; the hook points suggested by the property are not needed because nothing is executed.",
+        technique="static analysis: all-paths-pass-through on the CFG between raw reads, re-checks and acceptance; truth table of the liveness guard",
+        design_ref="DESIGN.md section 4, C07",
+    ),
     "C17": S(
         glue.C17 + [e.def1],
         explanation="Protocol of the glue installer: there is one installer function and every call of a glue function goes through it (who-may-call); both references are removed from their registries (pop) before either is called; "
@@ -164,8 +194,6 @@ NOT_APPLICABLE = {
     "C03": "quantifies over run-time object graphs (cr_await / gi_yieldfrom / gc.get_referents chains) and line numbers of an await/yield-from chain; the built-in unwrappers are one-liners already pinned by the suite; no structural clause adds a necessary condition the tests miss, and comparing with a thrown exception's traceback is execution, not static analysis",
     "C14": "isomorphism with Trio's live task tree and thread hand-offs depends on Trio's run-time state and on locals of third-party frames; nothing in the shape of stackscope's code separates right from wrong",
     "C04": "check under construction in this session (SLC rules); not claimed until it lands",
-    "C06": "check under construction in this session (ESC/NULL rules); not claimed until it lands",
-    "C07": "check under construction in this session (SNAP/THR rules); not claimed until it lands",
     "C09": "check under construction in this session (GCM/CTX-6..8 rules); not claimed until it lands",
     "C18": "check under construction in this session (FMT rules); not claimed until it lands",
     "C19": "check under construction in this session (FMT rules); not claimed until it lands",
